@@ -260,10 +260,71 @@ def model_cdna(ctx: Ctx, exprs, meta):
                       {'surface': 'file', 'design': d, 'targeton': t, 'kind': 'cdna_model'}, broken='correspondence S-file cdna_proc.proc_targeton (Model/Cdna.v)')
 
 
+# ---------------------------------------------------------------- S-api: CDS features -> exons (loaders/gtf.cds_features_to_exons)
+
+GTF_IMPORTS = ['Model.Base', 'Model.Pattern', 'Model.Transcript', 'Model.LiftExons', 'Model.Gtf']
+
+
+def api_gtf(args):
+    strand, cds = args
+    common.use_repo()
+    from valiant.loaders.gtf import CdsFeature, cds_features_to_exons
+    from valiant.strings.strand import Strand
+    try:
+        ex = cds_features_to_exons(Strand(strand), [CdsFeature(s, e, 'G', 'T', f) for s, e, f in cds])
+        ex.sort()
+        return [(x.start, x.end, x.index, x.frame) for x in ex]
+    except Exception:
+        return None
+
+
+def gtf_stage(ctx: Ctx):
+    """1-5 CDS features in any file order, both strands, features next to position 1: exon numbers follow the transcript, the stop codon
+    is added to the last one, the result is ascending = the Coq model and = the statement."""
+    rng = ctx.rng
+    cases = []
+    for _ in range(ctx.n(400, 5000)):
+        strand = rng.choice('+-')
+        k = rng.choice([1, 1, 2, 3, 4, 5])
+        pos, cds = rng.choice([1, 2, 3, 4, 9]), []
+        for _i in range(k):
+            ln = rng.choice([1, 2, 3, 5, 8, 13])
+            cds.append((pos, pos + ln - 1, rng.choice([0, 1, 2])))
+            pos += ln + rng.randint(1, 6)
+        rng.shuffle(cds)
+        cases.append((strand, cds))
+    res = [api_gtf(c) for c in cases]
+    exprs = []
+    for (strand, cds), got in zip(cases, res):
+        ctx.evaluations += 1
+        impl = 'None' if got is None else '(Some ' + coq_list(f'mkEx {s_} {e_} {i_} {f_}' for s_, e_, i_, f_ in got) + ')'
+        exprs.append(f'lift_agrees (cds_to_exons {"Plus" if strand == "+" else "Minus"} {coq_list(f"mkCdsF {s_} {e_} {f_}" for s_, e_, f_ in cds)}) {impl}')
+        asc = sorted(cds)
+        n = len(asc)
+        want = [(s_ - (3 if strand == '-' and j == 0 else 0), e_ + (3 if strand == '+' and j == n - 1 else 0), j if strand == '+' else n - 1 - j, f_)
+                for j, (s_, e_, f_) in enumerate(asc)]
+        if want[0][0] < 0:
+            want = None
+        ctx.nontriv(('gtf', strand, tuple(cds)))
+        if got != want:
+            ctx.violation('spec_violation', f'CDS features {cds} on {strand} became exons {got}, expected {want}',
+                          {'surface': 'api', 'kind': 'gtf', 'case': [strand, [list(c) for c in cds]], 'got': got, 'expected': want})
+    bad, err = coq_eval(GTF_IMPORTS, exprs, chunk=400)
+    ctx.corr['cases'] += len(exprs)
+    if err:
+        ctx.violation('correspondence', 'model evaluation failed: ' + err[:300], broken='coqc cases (C03 gtf)', no_input=True)
+    for i in bad[:20]:
+        ctx.corr['disagreements'] += 1
+        ctx.violation('correspondence', f'cds_features_to_exons differs from the model for {cases[i][1]} on {cases[i][0]}',
+                      {'surface': 'api', 'kind': 'gtf_model', 'case': [cases[i][0], [list(c) for c in cases[i][1]]], 'got': res[i]},
+                      broken='correspondence S-api loaders/gtf.cds_features_to_exons (Model/Gtf.v)')
+
+
 def run(ctx: Ctx):
     sweep(ctx)
     files(ctx)
     files_cdna(ctx)
+    gtf_stage(ctx)
     return {'rule': 'S-api: small transcripts (1-3 exons of 1..7 bases, both strands, default and a permuted codon table), every sub-range of '
                     'every exon, the five codon-level mutators through the real Transcript.get_cds_seq + MutatorCollection.get_variants, '
                     'compared with the Coq model region_rows (vm_compute) and with an independent reading-frame oracle; non-coding regions '
